@@ -1,6 +1,7 @@
 import RtVerif.Base.Bytes
 import RtVerif.Base.Verdict
 import RtVerif.Gen.Facts
+import RtVerif.Model.C07
 /-
   C06 — a body is decoded only by the consumer of an admitted media type, else 415.
 
@@ -14,6 +15,11 @@ import RtVerif.Gen.Facts
     * `validation.contentType` (reflective entry point, behind `Context.BindAndValidate`)
                                                                     → `untypedRaw`
     * the head of `Context.BindValidRequest` (entry point of generated servers) → `typedRaw`
+    * the WHOLE of `Context.BindValidRequest` (head, response-format check, binder call, returned
+      error) → `typedFull`; the whole of `validateRequest` + `Context.BindAndValidate`
+      (`validation.contentType`, `validation.responseFormat` / `Context.ResponseFormat`,
+      `validation.parameters`) → `untypedFull`. The Accept negotiation is C07's model
+      (`C07.parseAccept`, `C07.negotiateContentType`); `route.Produces` is `routeProduces`
     * `errors.ServeError` on a composite error (serves the first error)          → `observe`
 
   `mime.ParseMediaType` is a PARAMETER `pmt : Bytes → Option Bytes` (`none` = any error, `some t` =
@@ -327,6 +333,234 @@ def modelObs (out : GateOut) : Obs := ⟨out, consumerRan out, handlerRan out⟩
 /-- The property quantifies over "consumes lists spelled in lower case". -/
 def WF (api : Api) : Bool := api.opConsumes.all fun e => toLower e == e
 
+/-! ## reading an observation of the real code as a gate outcome -/
+
+def outOfCode (c : Nat) : GateOut :=
+  if c == 400 then .e400 else if c == 415 then .e415 else if c == 500 then .e500NoConsumer
+  else .unexpected c
+
+/-- the observable outcome of an entry point from what the harness saw of the real code -/
+def obsOut (carries : Bool) (codes : List Nat) (ran : Option Nat) : GateOut :=
+  match codes with
+  | c :: _ => outOfCode c
+  | [] => match ran with
+    | some k => .consumer k
+    | none => if carries then .passNoConsumer else .skipped
+
+/-! ## the whole functions: content-type gate, response-format check, binder
+
+`Context.BindValidRequest(request, route, binder)` (generated servers) and
+`validateRequest` behind `Context.BindAndValidate` (reflective). Additional inputs: the parsed Accept
+header (`header.ParseAccept(r.Header, "Accept")`, C07's `parseAccept` of the header lines),
+`route.Produces`, and — for the generated entry point — the binder handed in and what it returns. -/
+
+/-- an error appended to `res` / `v.result` -/
+inductive FErr where
+  | gate (e : Err)
+  | notAcceptable          -- errors.InvalidResponseFormat (406)
+deriving Repr, DecidableEq
+
+def FErr.code : FErr → Nat
+  | .gate e => e.code
+  | .notAcceptable => 406
+
+/-- what `binder.BindRequest` returns: nil, or an error value (shown by its code; 599 = an error
+that is not an `errors.Error`) -/
+inductive BinderRes where
+  | ok
+  | fail (code : Nat)
+deriving Repr, DecidableEq
+
+structure TailIn where
+  /-- `header.ParseAccept(request.Header, "Accept")` -/
+  specs : List C07.Spec
+  /-- `route.Produces` -/
+  produces : List Bytes
+  /-- `none`: a nil binder -/
+  binder : Option BinderRes
+deriving Repr
+
+/-- the `error` an entry point returns -/
+inductive Ret where
+  | nil
+  /-- `errors.CompositeValidationError(res...)` -/
+  | composite (errs : List FErr)
+  /-- the binder's own error value, handed back unchanged (not wrapped) -/
+  | asIs (code : Nat)
+deriving Repr, DecidableEq
+
+structure Full where
+  ret : Ret
+  /-- `binder.BindRequest` / `route.Binder.Bind` was called -/
+  binderRan : Bool
+  /-- `route.Consumer` afterwards -/
+  selected : Option Nat
+deriving Repr, DecidableEq
+
+/-- router.go `AddRoute`: `analyzer.ProducesFor(operation)` plus the API default "if not part of
+the spec" (the analyzer returns the operation's list without duplicates in map order; the harness
+checks the observed `route.Produces` against this list up to the order of the operation's part). -/
+def routeProduces (opProduces : List Bytes) (dprod : Bytes) : List Bytes :=
+  if !dprod.isEmpty && !containsCI opProduces dprod then opProduces ++ [dprod] else opProduces
+
+def rawErrs : Option Raw → List FErr
+  | none => []
+  | some r => r.errs.map .gate
+
+def rawSel : Option Raw → Option Nat
+  | none => none
+  | some r => r.selected
+
+/-- `NegotiateContentType(request, offers, "") == ""` -/
+def noFormat (specs : List C07.Spec) (offers : List Bytes) : Bool :=
+  (C07.negotiateContentType specs offers []).isEmpty
+
+/-- context.go, "check and validate the response format":
+`if len(res) == 0 && len(route.Produces) > 0 { if NegotiateContentType(request, route.Produces, "") == "" { append 406 } }` -/
+def tRespCheck (res : List FErr) (t : TailIn) : List FErr :=
+  if res.isEmpty && !t.produces.isEmpty then
+    if noFormat t.specs t.produces then res ++ [.notAcceptable] else res
+  else res
+
+/-- "now bind the request with the provided binder" and the returns of `BindValidRequest` -/
+def tBind (res : List FErr) (sel : Option Nat) : Option BinderRes → Full
+  | none => match res with
+    | [] => ⟨.nil, false, sel⟩
+    | e :: es => ⟨.composite (e :: es), false, sel⟩
+  | some b => match res with
+    | [] => match b with
+      | .ok => ⟨.nil, true, sel⟩
+      | .fail c => ⟨.asIs c, true, sel⟩
+    | e :: es => ⟨.composite (e :: es), false, sel⟩
+
+/-- `Context.BindValidRequest` -/
+def typedFull (pmt : Pmt) (api : Api) (h : ReqHead) (t : TailIn) : Full :=
+  tBind (tRespCheck (rawErrs (typedRaw pmt api h)) t) (rawSel (typedRaw pmt api h)) t.binder
+
+/-- validation.go: `if len(validate.result) == 0 { validate.responseFormat() }` with
+`responseFormat`: `if str, _ := ResponseFormat(request, route.Produces); str == "" && len(route.Produces) > 0 { append 406 }`
+(`Context.ResponseFormat` on a request without a cached format is `NegotiateContentType(r, offers, "")`) -/
+def uRespCheck (res : List FErr) (t : TailIn) : List FErr :=
+  if res.isEmpty then
+    if noFormat t.specs t.produces && !t.produces.isEmpty then res ++ [.notAcceptable] else res
+  else res
+
+/-- `if len(validate.result) == 0 { validate.parameters() }` (the route's own parameter binder; in
+the harness its body parameter accepts every value) and the returns of `BindAndValidate` -/
+def uBind (res : List FErr) (sel : Option Nat) : Full :=
+  match res with
+  | [] => ⟨.nil, true, sel⟩
+  | e :: es => ⟨.composite (e :: es), false, sel⟩
+
+/-- `validateRequest` + `Context.BindAndValidate` (the binder of `t` plays no part) -/
+def untypedFull (pmt : Pmt) (api : Api) (h : ReqHead) (t : TailIn) : Full :=
+  uBind (uRespCheck (rawErrs (untypedRaw pmt api h)) t) (rawSel (untypedRaw pmt api h))
+
+/-- the consumer whose `Consume` runs: the selected one, when a binder that decodes ran -/
+def Full.decoded (f : Full) : Option Nat :=
+  match f.ret with
+  | .nil => if f.binderRan then f.selected else none
+  | _ => none
+
+def Ret.codes : Ret → List Nat
+  | .nil => []
+  | .composite es => es.map FErr.code
+  | .asIs c => [c]
+
+def Ret.isAsIs : Ret → Bool
+  | .asIs _ => true
+  | _ => false
+
+/-- The transcription of the tail as it stood before the repair of F06b (kept to state what was
+wrong, `Props/C06.lean` `old_tail_differs_iff`): the request's own media type — set only when a
+body was admitted and its consumer found — was the DEFAULT offer of the negotiation, `*/*` standing
+in when there was neither a produces list nor a body. -/
+def tRespCheckOld (res : List FErr) (rct : Bytes) (t : TailIn) : List FErr :=
+  if res.isEmpty then
+    if (C07.negotiateContentType t.specs t.produces
+          (if t.produces.isEmpty && rct.isEmpty then starSlashStar else rct)).isEmpty
+    then res ++ [.notAcceptable] else res
+  else res
+
+/-! ## Spec for the whole functions — from the property texts
+
+C06: "Otherwise the answer is 415 (400 …) and neither a consumer nor the handler runs; the two
+binding entry points … accept or refuse the same requests and pick the same consumer."
+C07: "Given the client's Accept header and the media types an operation can produce (its produces
+list plus the API's default type, last) … ranges with quality 0 never select an offer and a missing
+Accept header selects the first offer. Through the API handler, a request whose Accept header admits
+none of the types its operation declares is answered 406 and the handler does not run."
+
+Readings:
+* "the types its operation declares": the operation's produces list plus the API's default type.
+* "admits": the header is missing (or yields no range at all), or some range of quality > 0
+  matches some declared type — exactly, as `type/*` for a type of that major type, or as `*/*`;
+  the declared type is compared without its parameters (C07's `matchWild` on `normalizeOffer`).
+* An operation that declares NO type (no produces list and an API without default type) is not
+  subjected to the check: there is nothing the header could admit or exclude, and both entry points
+  say so in their comments ("the API designer chose not to specify the format for responses").
+* The check does not depend on the request body: the request's own media type is not a declared
+  type (this is what F06b was about).
+* Order of the answers: the content-type gate comes first (400/415/500 as in `Spec`), then 406;
+  406 stands alone. Only when no check failed is the binder called (generated entry point: the one
+  handed in, if any; reflective: the route's parameter binder), and the error of the binder handed
+  in is returned as the very value it returned.
+* "the handler does not run": a refused request reaches neither binder, consumer nor handler. -/
+
+/-- the operation's produces list plus the API's default type, last -/
+def declaredTypes (opProduces : List Bytes) (dprod : Bytes) : List Bytes :=
+  if dprod.isEmpty then opProduces else opProduces ++ [dprod]
+
+/-- the range `sp` (quality > 0) matches the declared type `o` -/
+def rangeAdmits (o : Bytes) (sp : C07.Spec) : Bool :=
+  !sp.q.isZero && (C07.matchWild sp.value (C07.normalizeOffer o)).isSome
+
+/-- the Accept header admits one of the declared types -/
+def acceptAdmits (specs : List C07.Spec) (declared : List Bytes) : Bool :=
+  specs.isEmpty || declared.any fun o => specs.any (rangeAdmits o)
+
+/-- What is seen of one entry point on one request (whole function). -/
+structure FullObs where
+  /-- codes of the returned error(s), in order -/
+  codes : List Nat
+  /-- the returned error is the very value the binder returned -/
+  asIs : Bool
+  binderRan : Bool
+  /-- `route.Consumer` afterwards -/
+  selected : Option Nat
+  /-- the consumer whose `Consume` ran -/
+  decoded : Option Nat
+deriving Repr, DecidableEq
+
+def obsOfFull (f : Full) : FullObs := ⟨f.ret.codes, f.ret.isAsIs, f.binderRan, f.selected, f.decoded⟩
+
+/-- the codes that speak about the content-type gate: not the binder's own error, not 406 -/
+def gateCodes (o : FullObs) : List Nat := if o.asIs then [] else o.codes.filter (· != 406)
+
+/-- the outcome of the content-type gate as far as it shows -/
+def gateSeen (h : ReqHead) (o : FullObs) : GateOut := obsOut (carriesBody h) (gateCodes o) o.selected
+
+def SpecFull (pmt : Pmt) (api : Api) (h : ReqHead) (specs : List C07.Spec) (declared : List Bytes)
+    (binder : Option BinderRes) (o : FullObs) : Bool :=
+  Spec pmt api h (gateSeen h o) &&
+  match gateSeen h o with
+  | .skipped | .consumer _ =>
+    if !declared.isEmpty && !acceptAdmits specs declared then
+      o.codes == [406] && !o.asIs && !o.binderRan && o.decoded == none
+    else match binder with
+      | none => o.codes == [] && !o.asIs && !o.binderRan && o.decoded == none
+      | some .ok => o.codes == [] && !o.asIs && o.binderRan && o.decoded == consumerRan (gateSeen h o)
+      | some (.fail c) => o.codes == [c] && o.asIs && o.binderRan && o.decoded == none
+  | _ => !o.asIs && !o.binderRan && o.decoded == none
+
+/-- what the checks (gate, response format) answered: `none` = nothing to object -/
+def checksVerdict (o : FullObs) : Option Nat := if o.asIs then none else o.codes.head?
+
+/-- produces lists in the property's quantifier: spelled in lower case (as the consumes lists), no
+empty entry -/
+def WFp (opProduces : List Bytes) (dprod : Bytes) : Bool :=
+  (opProduces.all fun e => toLower e == e && !e.isEmpty) && toLower dprod == dprod
+
 /-- No recorded finding class (F06a was repaired: see known_findings.txt). -/
 def Known (_api : Api) (_h : ReqHead) : Option String := none
 
@@ -357,18 +591,6 @@ def encCodes (l : List Err) : String :=
 def encId : Option Nat → String
   | none => "-1"
   | some k => toString k
-
-def outOfCode (c : Nat) : GateOut :=
-  if c == 400 then .e400 else if c == 415 then .e415 else if c == 500 then .e500NoConsumer
-  else .unexpected c
-
-/-- the observable outcome of an entry point from what the harness saw of the real code -/
-def obsOut (carries : Bool) (codes : List Nat) (ran : Option Nat) : GateOut :=
-  match codes with
-  | c :: _ => outOfCode c
-  | [] => match ran with
-    | some k => .consumer k
-    | none => if carries then .passNoConsumer else .skipped
 
 def renderRaw (r : Option Raw) (out : GateOut) : String :=
   match r with
@@ -404,6 +626,49 @@ def tagOf (pmt : Pmt) (api : Api) (h : ReqHead) : String :=
       | .passNoConsumer => "passNoConsumer"
       | _ => "other"
     s!"{base}/{hdr}/{bodySignal h}"
+
+/-! ### stream H: the whole functions -/
+
+def decBinder (s : String) : Option (Option BinderRes) :=
+  if s == "0" then some none
+  else if s == "1" then some (some .ok)
+  else if s == "2" then some (some (.fail 422))
+  else if s == "3" then some (some (.fail 599))
+  else none
+
+def encNats (l : List Nat) : String :=
+  if l.isEmpty then "." else ",".intercalate (l.map toString)
+
+/-- the observed `route.Produces` is `routeProduces` of the operation's list without duplicates, up
+to the order of the operation's part (the analyzer hands it over in map order) -/
+def routeProducesOK (opProduces : List Bytes) (dprod : Bytes) (rp : List Bytes) : Bool :=
+  let u := opProduces.eraseDups
+  let want := routeProduces u dprod
+  rp.length == want.length && want.all rp.contains && rp.all want.contains &&
+    (want.length == u.length || rp.getLast? == some dprod)
+
+def renderFull (f : Full) : String :=
+  s!"{encNats f.ret.codes} {encId f.selected} {if f.binderRan then 1 else 0} {encId f.decoded} {if f.ret.isAsIs then 1 else 0}"
+
+def binderTag : Option BinderRes → String
+  | none => "nil"
+  | some .ok => "ok"
+  | some (.fail c) => s!"f{c}"
+
+def tagFull (pmt : Pmt) (api : Api) (h : ReqHead) (t : TailIn) : String :=
+  let g := match gateTyped pmt api h with
+    | .skipped => "skip" | .consumer _ => "ok" | .e400 => "e400" | .e415 => "e415"
+    | .e500NoConsumer => "e500" | _ => "other"
+  let reached := handlerRan (gateTyped pmt api h)
+  let fmt :=
+    if !reached then "-"
+    else if t.produces.isEmpty then "noproduces"
+    else if t.specs.isEmpty then "noaccept"
+    else if noFormat t.specs t.produces then "406"
+    else match C07.firstMax (C07.candidates t.specs t.produces) with
+      | some b => s!"w{b.wild}"
+      | none => "?"
+  s!"H:{g}/{fmt}/{binderTag t.binder}"
 
 def run (ins outs : List String) : Verdict :=
   match ins, outs with
@@ -446,6 +711,54 @@ def run (ins outs : List String) : Verdict :=
             else if WF api then tagOf pmt api h else "~mixedcase:" ++ tagOf pmt api h, model := m }
       | _, _, _, _, _, _, _, _, _, _ => .bad "C06 output fields"
     | _, _, _, _, _, _, _, _ => .bad "C06 input fields"
+  | ["H", cons, dflt, reg, meth, cts, cl, clh, mode, oprod, dprod, acc, bnd],
+    [hb, eff, p1, p2, rp, uC, uS, uR, tC, tS, tB, tR, tI, sSt, sR, sH] =>
+    match decList cons, decField dflt, decList reg, decField meth, decList cts, cl.toInt?,
+          decField clh, mode.toNat? with
+    | some cons, some dflt, some reg, some meth, some cts, some cl, some clh, some mode =>
+      match decList oprod, decField dprod, decList acc, decBinder bnd, decList rp with
+      | some oprod, some dprod, some acc, some bnd, some rp' =>
+        match decField eff, decParse p1, decParse p2, decCodes uC, decId uS, decId uR, decCodes tC, decId tS with
+        | some eff', some p1, some p2, some uC', some uS', some uR', some tC', some tS' =>
+          match tB.toNat?, decId tR, tI.toNat?, sSt.toNat?, decId sR, sH.toNat? with
+          | some tB', some tR', some tI', some sSt', some sR', some sH' =>
+            let api : Api := ⟨cons, dflt, reg⟩
+            let h : ReqHead := ⟨meth, cts, cl, clh, mode == 2⟩
+            let pmt := obsPmt eff' p1 p2
+            let specs := C07.parseAccept acc
+            let t : TailIn := ⟨specs, rp', bnd⟩
+            let fU := untypedFull pmt api h t
+            let fT := typedFull pmt api h t
+            let rpok := routeProducesOK oprod dprod rp'
+            -- S: the complete handler (not run for an API without default producer: `Respond`
+            -- needs one — C08's subject)
+            let sModel :=
+              if dprod.isEmpty then "0 -1 0"
+              else if gateUntyped pmt api h == .passNoConsumer then "PANIC -1 0"
+              else s!"{match fU.ret.codes with | c :: _ => c | [] => 200} {encId fU.decoded} {if fU.binderRan then 1 else 0}"
+            let m := s!"{if hasBody h then 1 else 0} {encField (effCT h)} {if rpok then 1 else 0} {encNats fU.ret.codes} {encId fU.selected} {encId fU.decoded} {renderFull fT} {sModel}"
+            let impl := s!"{hb} {eff} 1 {uC} {uS} {uR} {tC} {tS} {tB} {tR} {tI} {sSt} {sR} {sH}"
+            let hyps := obsHypsOk p1 p2
+            let declared := declaredTypes oprod dprod
+            let oU : FullObs := ⟨uC', false, uC'.isEmpty, uS', uR'⟩
+            let oT : FullObs := ⟨tC', tI' == 1, tB' == 1, tS', tR'⟩
+            -- the complete handler does not expose `route.Consumer`: the one seen through U stands in
+            let oS : FullObs := ⟨if sSt' == 200 then [] else [sSt'], false, sH' == 1, uS', sR'⟩
+            let specOk := !WF api || !WFp oprod dprod ||
+              (SpecFull pmt api h specs declared (some .ok) oU && SpecFull pmt api h specs declared bnd oT &&
+               (dprod.isEmpty || (SpecFull pmt api h specs declared (some .ok) oS &&
+                  checksVerdict oS == checksVerdict oU)) &&
+               checksVerdict oU == checksVerdict oT && gateSeen h oU == gateSeen h oT &&
+               tB' ≤ 1 && tI' ≤ 1 && sH' ≤ 1)
+            { agree := m == impl && hyps, specOk := specOk,
+              known := (Known api h).getD "-",
+              tag := if !hyps then "PMT-HYPOTHESIS-FAILED"
+                else if WF api && WFp oprod dprod then tagFull pmt api h t else "~mixedcase:" ++ tagFull pmt api h t,
+              model := m }
+          | _, _, _, _, _, _ => .bad "C06 H output fields (3)"
+        | _, _, _, _, _, _, _, _ => .bad "C06 H output fields (2)"
+      | _, _, _, _, _ => .bad "C06 H input fields (2)"
+    | _, _, _, _, _, _, _, _ => .bad "C06 H input fields"
   | _, _ => .bad "C06 stream"
 
 end RtVerif.C06
